@@ -111,6 +111,23 @@ func run(args []string) {
 			overlay[filepath.Join(pkgDir, filepath.Base(f))] = data
 		}
 	}
+	// extra overlay files for other packages: <harness>/extra/*.go with a first line
+	// "//verif:dir <dir relative to repo>"
+	if *harness != "" {
+		files, _ := filepath.Glob(filepath.Join(*harness, "extra", "*.go"))
+		for _, f := range files {
+			data, err := os.ReadFile(f)
+			if err != nil {
+				fatal(err)
+			}
+			first := strings.SplitN(string(data), "\n", 2)[0]
+			if !strings.HasPrefix(first, "//verif:dir ") {
+				fatal(fmt.Errorf("%s: missing //verif:dir line", f))
+			}
+			dir := strings.TrimSpace(strings.TrimPrefix(first, "//verif:dir "))
+			overlay[filepath.Join(*repo, dir, filepath.Base(f))] = data
+		}
+	}
 	if *rt != "" {
 		data, err := os.ReadFile(*rt)
 		if err != nil {
